@@ -197,6 +197,13 @@ def run(ck, facts, tier):
             if st and dtarg is not None:
                 tests.append((cand, bs[1], st))
         names = {s.split("::")[-1] for _, _, s in tests}
+        for _, ct in fn.calls():
+            if call_name_matches(ct, r"term::Term::eq$|Term>::eq$|cmp::PartialEq.*::eq$") and \
+                    any(comes_from_call(fn, a, r"Term::datatype$|Term>::datatype$") for a in ct["args"]):
+                for a in ct["args"]:
+                    last = provenance(fn, a)[-1]
+                    if last[0] == "const" and last[1].get("kind") == "static":
+                        names.add(last[1]["def"].split("::")[-1])
         extra = names - allowed
         if extra:
             ck.bad("R20.2", key + "#whitelist", "%s accepts datatypes %s whose values do not embed in %s" % (ty, sorted(extra), ty), fn.loc)
@@ -250,7 +257,29 @@ def run(ck, facts, tier):
                     if (b, s) in edges:
                         continue
                     stack.append(s)
-            if bi in seen:
+            unguarded = bi in seen
+            if unguarded:
+                # the test may be bound to a boolean first (`let accepted = a || b || ..; if !accepted { return .. }`): decide per path
+                from mirutil import enumerate_paths
+                test_calls = set()
+                for _, ct in fn.calls():
+                    if call_name_matches(ct, r"term::Term::eq$|Term>::eq$|cmp::PartialEq.*::eq$") and \
+                            any(provenance(fn, a)[-1][0] == "const" and provenance(fn, a)[-1][1].get("kind") == "static" for a in ct["args"]) and \
+                            any(comes_from_call(fn, a, r"Term::datatype$|Term>::datatype$") for a in ct["args"]):
+                        test_calls.add(id(ct))
+                try:
+                    paths = enumerate_paths(fn, 0, lambda tt, _t=t: "PARSE" if tt is _t else None, max_paths=20000, follow_errors=True, trace=True)
+                    unguarded = False
+                    for _, toks in paths:
+                        passed = False
+                        for tk in toks:
+                            if isinstance(tk, tuple) and tk[0] == "?" and tk[3] and tk[3][0] == "call" and id(tk[3][1]) in test_calls and tk[2] is True:
+                                passed = True
+                            if tk == "PARSE" and not passed:
+                                unguarded = True
+                except CheckError:
+                    unguarded = True
+            if unguarded:
                 ck.bad("R20.2", key + "#unguarded-parse", "the lexical form is parsed as %s on a path that passes no datatype test" % ty,
                        "%s:%s" % (t["file"], t["line"]))
             elif not edge_dominates(fn, lit_sw, bi):
